@@ -362,7 +362,7 @@ def run(program, rep, tier):
     snapshot_draw = False
     unguarded = None
     stuck = None
-    counted = blind_pop = None
+    counted = blind_pop = strict_unindex = None
     n_exc = 0
     n_rows = 0
     for ex in exits:
@@ -384,6 +384,22 @@ def run(program, rep, tier):
                 nonempty = False
             if e.kind == 'for' and f'len({DEAD})' in e.sym.text:
                 counted = counted or e
+            # un-indexing tolerates an entry that is already gone: a sweep
+            # that failed half-way (a raising on_remove) has un-indexed some
+            # types of an entity that still exists and can be deleted again
+            if e.kind == 'call' and isinstance(e.sym.node, ast.Call) \
+                    and isinstance(e.sym.node.func, ast.Attribute) \
+                    and e.sym.node.func.attr == 'remove' \
+                    and norm(e.sym.node.func.value).startswith(
+                        'self._components[') and e.sym.node.args:
+                recv_ = norm(e.sym.node.func.value)
+                arg_ = norm(e.sym.node.args[0])
+                guarded_ = any(x.kind == 'cond' and x.extra is True
+                               and x.sym.text == f'{arg_} in {recv_}'
+                               for x in tr[:i]) or _in_keyerror_try(
+                                   program, tr, e)
+                if not guarded_ and strict_unindex is None:
+                    strict_unindex = e
             if op and op[0] == 'pop' and not nonempty and blind_pop is None \
                     and not _in_keyerror_try(program, tr, e):
                 blind_pop = e
@@ -474,6 +490,15 @@ def run(program, rep, tier):
                 'shrinks the set, pop() raises KeyError and process() fails '
                 'although every deleted entity existed when it was deleted',
                 line=getattr(e_.node, 'lineno', None))
+    if strict_unindex is not None:
+        rep.bad('C05.progress', site(app), strict_unindex.node,
+                'the teardown un-indexes with set.remove(), which raises '
+                'when the entry is already gone: after a sweep that failed '
+                'half-way (an on_remove callback raised) the entity still '
+                'exists, partly un-indexed - deleting it again makes '
+                'process() raise KeyError before any processor runs, on '
+                'this and on every later frame',
+                line=getattr(strict_unindex.node, 'lineno', None))
     if stuck is not None:
         rep.bad('C05.progress', site(app), stuck[0].node,
                 'a call-out of the teardown can raise while the id being torn '
